@@ -27,6 +27,7 @@ import (
 	"path/filepath"
 	"reflect"
 	"sort"
+	"strconv"
 	"strings"
 	"testing"
 
@@ -124,6 +125,191 @@ func c15Export(n sqlast.Node, inCh bool) *c15Node {
 	return res
 }
 
+// c15Touched is what SQLite itself says a statement touches: EXPLAIN's OpenRead / OpenWrite / Clear / Destroy
+// opcodes with their root pages mapped back to table names through sqlite_master (an index's pages count for
+// its table; root page 1 is the schema table: a schema write).
+type c15Touched struct {
+	OK      bool     `json:"ok"`            // EXPLAIN succeeded
+	Err     string   `json:"err,omitempty"` // why not
+	Reads   []string `json:"reads"`
+	Writes  []string `json:"writes"`
+	Schema  bool     `json:"schema_write"`
+	Exec    string   `json:"exec"` // "ok" | "err: ..." : the statement really executed afterwards
+	Created []string `json:"created"`
+}
+
+func c15TreeNames(n *c15Node, skipField string, acc map[string]bool) {
+	for _, f := range n.Fields {
+		for _, k := range f.Kids {
+			if skipField != "" && f.Name == skipField {
+				continue
+			}
+
+			if k.Ty == "TableRef" && k.Name != "" {
+				acc[k.Name] = true
+			}
+
+			c15TreeNames(k, "", acc)
+		}
+	}
+}
+
+const c15Cols = "(id INTEGER, a INTEGER, b INTEGER, c INTEGER, x INTEGER, y INTEGER, v TEXT, c0 INTEGER, c1 INTEGER, c2 INTEGER, d0 INTEGER, d1 INTEGER, d2 INTEGER)"
+
+func c15Explain(stmt string, kind string, tree *c15Node) c15Touched {
+	res := c15Touched{Reads: []string{}, Writes: []string{}, Created: []string{}}
+
+	h, err := sql.Open("sqlite", ":memory:")
+	if err != nil {
+		res.Err = "open"
+
+		return res
+	}
+	defer h.Close()
+
+	h.SetMaxOpenConns(1)
+
+	// every table the tree names, found by reflection (not through Tables()), except what the statement creates
+	names := map[string]bool{}
+	skip := ""
+
+	if tree.Ty == "CreateTableStmt" {
+		skip = "Table"
+	}
+
+	c15TreeNames(tree, skip, names)
+
+	if tree.Ty == "CreateIndexStmt" && tree.Strs["Table"] != "" {
+		names[tree.Strs["Table"]] = true
+	}
+
+	for n := range names {
+		bare := n
+		if i := strings.LastIndex(n, "."); i >= 0 {
+			bare = n[i+1:]
+		}
+
+		if _, err := h.Exec("CREATE TABLE IF NOT EXISTS \"" + bare + "\" " + c15Cols); err == nil {
+			res.Created = append(res.Created, bare)
+		}
+	}
+
+	switch tree.Ty {
+	case "DropIndexStmt":
+		h.Exec("CREATE TABLE ixhost (a INTEGER)")
+		h.Exec("CREATE INDEX \"" + tree.Strs["Name"] + "\" ON ixhost (a)")
+	case "DropViewStmt":
+		h.Exec("CREATE VIEW \"" + tree.Strs["Name"] + "\" AS SELECT 1 AS one")
+	}
+
+	sort.Strings(res.Created)
+
+	pages := map[int64]string{}
+
+	rows, err := h.Query("SELECT tbl_name, rootpage FROM sqlite_master WHERE rootpage > 0")
+	if err == nil {
+		for rows.Next() {
+			var (
+				n string
+				r int64
+			)
+
+			if rows.Scan(&n, &r) == nil {
+				pages[r] = n
+			}
+		}
+
+		rows.Close()
+	}
+
+	reads, writes := map[string]bool{}, map[string]bool{}
+
+	rows, err = h.Query("EXPLAIN " + stmt)
+	if err != nil {
+		res.Err = err.Error()
+	} else {
+		for rows.Next() {
+			var (
+				addr, p1, p2, p3 int64
+				op               string
+				p4, p5, cm       sql.NullString
+			)
+
+			if err := rows.Scan(&addr, &op, &p1, &p2, &p3, &p4, &p5, &cm); err != nil {
+				res.Err = "scan: " + err.Error()
+
+				break
+			}
+
+			root := int64(-1)
+			write := false
+
+			// OPFLAG_P2ISREG: P2 is a register holding the root page of an object created by this very statement
+			if f, err := strconv.ParseInt(p5.String, 10, 64); err == nil && f&0x10 != 0 && (op == "OpenWrite" || op == "OpenRead") {
+				continue
+			}
+
+			switch op {
+			case "OpenRead", "ReopenIdx":
+				root = p2
+			case "OpenWrite":
+				root, write = p2, true
+			case "Clear", "Destroy":
+				root, write = p1, true
+			}
+
+			if root < 0 {
+				continue
+			}
+
+			if root == 1 {
+				if write {
+					res.Schema = true
+				}
+
+				continue
+			}
+
+			if n, ok := pages[root]; ok {
+				if write {
+					writes[n] = true
+				} else {
+					reads[n] = true
+				}
+			}
+		}
+
+		if err := rows.Err(); err != nil && res.Err == "" {
+			res.Err = err.Error()
+		}
+
+		rows.Close()
+
+		res.OK = res.Err == ""
+	}
+
+	for n := range reads {
+		res.Reads = append(res.Reads, n)
+	}
+
+	for n := range writes {
+		res.Writes = append(res.Writes, n)
+	}
+
+	sort.Strings(res.Reads)
+	sort.Strings(res.Writes)
+
+	if _, err := h.Exec(stmt); err != nil {
+		res.Exec = "err: " + err.Error()
+	} else {
+		res.Exec = "ok"
+	}
+
+	_ = kind
+
+	return res
+}
+
 // c15Exec runs one statement on a fresh in-memory SQLite database holding the tables the generator
 // uses, so that the only reason for a refusal is the statement's own shape.
 func c15Exec(stmt string) string {
@@ -149,14 +335,15 @@ func c15Exec(stmt string) string {
 }
 
 type c15Out struct {
-	ID     int        `json:"id"`
-	OK     bool       `json:"ok"`
-	Kind   string     `json:"kind,omitempty"`
-	Tables [][]string `json:"tables"`         // [name, usage]
-	Exec   string     `json:"exec,omitempty"` // "ok" | "err: ..." when the formatted text was run on SQLite
-	Format string     `json:"format,omitempty"`
-	Tree   *c15Node   `json:"tree,omitempty"`
-	Err    string     `json:"err,omitempty"`
+	ID     int         `json:"id"`
+	OK     bool        `json:"ok"`
+	Kind   string      `json:"kind,omitempty"`
+	Tables [][]string  `json:"tables"`          // [name, usage]
+	Exec   string      `json:"exec,omitempty"`  // "ok" | "err: ..." when the formatted text was run on SQLite
+	Touch  *c15Touched `json:"touch,omitempty"` // SQLite dialect only: what EXPLAIN says the statement touches
+	Format string      `json:"format,omitempty"`
+	Tree   *c15Node    `json:"tree,omitempty"`
+	Err    string      `json:"err,omitempty"`
 }
 
 func TestVerifC15(t *testing.T) {
@@ -225,6 +412,11 @@ func TestVerifC15(t *testing.T) {
 
 			if execute {
 				o.Exec = c15Exec(o.Format)
+			}
+
+			if dialect == SQLite {
+				tc := c15Explain(o.Format, o.Kind, o.Tree)
+				o.Touch = &tc
 			}
 		}()
 
